@@ -267,3 +267,93 @@ Print Assumptions C12_too_many_dims_prefix_refuted.
 Print Assumptions C12_3d_input_accepted_refuted.
 Print Assumptions C12_ragged_uninitialised_rejected.
 Print Assumptions C12_uninitialised_teacher_stays_refuted.
+
+(* ================================================================================================================ *)
+(* Tie (T) for the validation code: check_vector (utils/validation.py), check_one_sequence and check_n_sequences (_base.py) as
+   translated on this run from their current source text (coq/gen/Gen_validation.v, translator tools/vlib/py2coq_val.py, over
+   the Python/numpy vocabulary of base/ValPrelude.v: isinstance on ndarray / Number / list, x.shape, x.dtype, np.asarray of a
+   number, np.atleast_2d, tuple indexing, len, loops over a list of arrays or the rows of an array, raise) ARE the functions of
+   model/Shapes.v the theorems above are about -- same accepted / rejected class, same returned descriptor, for ALL descriptors. *)
+From RV Require Import base.ValPrelude gen.Gen_validation proofs.Gen_validation_eq.
+
+Theorem C12_generated_check_vector (x : data) (allow_timespans : bool) :
+  Gen_validation.check_vector x true allow_timespans = as_array (Shapes.check_vector x allow_timespans).
+Proof. exact (gen_check_vector_eq x allow_timespans). Qed.
+
+(* expected dimension None / a tuple of ints (emb), or a bare int (normalised to the 1-tuple by the code) *)
+Theorem C12_generated_check_one_sequence (x : data) (expected : option (list nat)) (allow_timespans : bool) :
+  Gen_validation.check_one_sequence x (emb expected) allow_timespans
+  = as_array (Shapes.check_one_sequence x expected allow_timespans).
+Proof. exact (gen_check_one_sequence_eq x expected allow_timespans). Qed.
+
+Theorem C12_generated_check_one_sequence_int (x : data) (d : nat) (allow_timespans : bool) :
+  Gen_validation.check_one_sequence x (PInt d) allow_timespans
+  = as_array (Shapes.check_one_sequence x (Some [d]) allow_timespans).
+Proof. exact (gen_check_one_sequence_int x d allow_timespans). Qed.
+
+Print Assumptions C12_generated_check_vector.
+Print Assumptions C12_generated_check_one_sequence.
+Print Assumptions C12_generated_check_one_sequence_int.
+
+(* check_n_sequences, for ALL descriptors (lists nested to any depth), every expected dimension (none, an int, a tuple of any
+   length: one entry per input of a Concat) and all three flags -- no hypothesis.  The one test the translator PINS textually
+   (the np.unique-based comparison of the inputs' timesteps) is given its meaning by ValPrelude.timesteps_differ, and that
+   meaning is proved to be "not all timestep tuples are equal" (the model's all_same). *)
+Theorem C12_generated_check_n_sequences (x : data) (expected : option (list nat)) (ans ani ats : bool) :
+  Gen_validation.check_n_sequences x (emb expected) ans ani ats = Shapes.check_n_sequences x expected ans ani ats.
+Proof. exact (gen_check_n_sequences_all x expected ans ani ats). Qed.
+
+Theorem C12_generated_check_n_sequences_int (x : data) (d : nat) (ans ani ats : bool) :
+  Gen_validation.check_n_sequences x (PInt d) ans ani ats = Shapes.check_n_sequences x (Some [d]) ans ani ats.
+Proof. exact (gen_check_n_sequences_int x d ans ani ats). Qed.
+
+Theorem C12_generated_timestep_test (ts : list (list nat)) :
+  ts <> [] -> timesteps_differ ts = ROk (negb (all_same ts)).
+Proof. exact (timesteps_test_spec_holds ts). Qed.
+
+(* Transfer to the operations: what the TRANSLATED check rejects, run / call reject in the checking phase with the same
+   exception class and the node literally unchanged (C12_reject_before_change is then a statement about the translated check);
+   what it accepts is what the model's check_xy hands to the rest of the operation; a target it rejects is rejected by check_xy.
+   (_check_node_io / check_xy themselves -- the teacher-node dispatch -- are NOT translated: tie (H) only.) *)
+Theorem C12_generated_run_rejects (n : node) (x : data) (e : exn) : is_node x = false ->
+  Gen_validation.check_n_sequences x (emb (input_dim n)) false true true = RErr e ->
+  step n (ORun x) = Err PCheck e n.
+Proof. exact (gen_run_rejects n x e). Qed.
+
+Theorem C12_generated_call_rejects (n : node) (x : data) (e : exn) : is_node x = false ->
+  Gen_validation.check_n_sequences x (emb (input_dim n)) false true false = RErr e ->
+  step n (OCall x) = Err PCheck e n.
+Proof. exact (gen_call_rejects n x e). Qed.
+
+Theorem C12_generated_check_x_accepts (n : node) (x x' : data) (ans ani ats : bool) : is_node x = false ->
+  Gen_validation.check_n_sequences x (emb (input_dim n)) ans ani ats = ROk x' ->
+  check_xy n x None ans ani ats = ROk (x', YNone).
+Proof. exact (gen_check_x_accepts n x x' ans ani ats). Qed.
+
+Theorem C12_generated_check_y_rejects (n : node) (x x' y : data) (e : exn) (ans ani ats : bool) :
+  is_node x = false -> is_node y = false ->
+  Gen_validation.check_n_sequences x (emb (input_dim n)) ans ani ats = ROk x' ->
+  Gen_validation.check_n_sequences y (emb (option_map (fun d => [d]) (output_dim n))) ans false ats = RErr e ->
+  check_xy n x (Some y) ans ani ats = RErr e.
+Proof. exact (gen_check_y_rejects n x x' y e ans ani ats). Qed.
+
+(* non-vacuity: the translated code, executed -- a wrong feature count, a bool array, a list where none is allowed, a 4-D array,
+   a ragged pair of inputs for a Concat, an accepted pair, and an accepted 1-D input reshaped to (1, 3) *)
+Example C12_generated_example :
+  Gen_validation.check_n_sequences (DArr true [5; 4]) (PInt 3) false true true = RErr ValueError /\
+  Gen_validation.check_n_sequences (DArr false [5; 3]) (PInt 3) false true true = RErr TypeError /\
+  Gen_validation.check_n_sequences (DList [DArr true [5; 3]]) (PInt 3) false true true = RErr TypeError /\
+  Gen_validation.check_n_sequences (DArr true [2; 2; 5; 3]) (PInt 3) true true true = RErr ValueError /\
+  Gen_validation.check_n_sequences (DList [DArr true [5; 3]; DArr true [4; 2]]) (emb (Some [3; 2])) false true true = RErr ValueError /\
+  Gen_validation.check_n_sequences (DList [DArr true [5; 3]; DArr true [5; 2]]) (emb (Some [3; 2])) false true true
+    = ROk (DList [DArr true [5; 3]; DArr true [5; 2]]) /\
+  Gen_validation.check_n_sequences (DArr true [3]) (PInt 3) false true false = ROk (DArr true [1; 3]).
+Proof. vm_compute. repeat split. Qed.
+
+Print Assumptions C12_generated_check_n_sequences.
+Print Assumptions C12_generated_check_n_sequences_int.
+Print Assumptions C12_generated_timestep_test.
+Print Assumptions C12_generated_run_rejects.
+Print Assumptions C12_generated_call_rejects.
+Print Assumptions C12_generated_check_x_accepts.
+Print Assumptions C12_generated_check_y_rejects.
